@@ -42,7 +42,9 @@ class CustomError(Exception):
         self.code = code
 
     def __reduce__(self):
-        return (CustomError, (self.args[0], self.code))
+        # the instance state (incl. __notes__) travels with the exception, as for the built-in exceptions; an exception
+        # class whose __reduce__ drops its state loses its notes in ANY process pool - not pipefunc's doing
+        return (CustomError, (self.args[0], self.code), dict(self.__dict__))
 
 
 EXC = {
@@ -141,6 +143,19 @@ def sticky_hook(fault, seen):
     return hook
 
 
+def args_hook(fault, spec, inputs):
+    """for worker PROCESSES (each has its own call counter): fails the invocation whose arguments are those of the
+    fault's call index in the reference call order - the same invocation in whichever worker runs it"""
+    _, calls = gen_map.ref_map(spec, inputs)
+    target = calls[fault["func"]][fault["call"] - 1]
+    params = next(f["params"] for f in spec["funcs"] if f["name"] == fault["func"])
+
+    def hook(name, kw):
+        if name == fault["func"] and ",".join(terms.T(kw[p]) for p in params) == target:
+            raise EXC[fault["exc"]](fault["call"])
+    return hook
+
+
 def generations(spec):
     gen = {}
     prod = {o: f["name"] for f in spec["funcs"] for o in f["outs"]}
@@ -167,7 +182,7 @@ def run_map_fault(cfg, fault, chooser=None):  # noqa: C901, PLR0912, PLR0915
     out = []
     terms.LOG.clear()
     try:
-        p = gen_map.build(spec, hook=sticky_hook(fault, seen))
+        p = gen_map.build(spec, hook=args_hook(fault, spec, inputs) if cfg["mode"] == "process" else sticky_hook(fault, seen))
         kw = dict(run_folder=run, internal_shapes=gen_map.internal_shapes_arg(spec), storage=c03.storage_arg(cfg["storage"]))
         mode = cfg["mode"]
         raised = None
